@@ -300,6 +300,25 @@ def relations(fam, inv, d, hidden=None):
                 if d[sid] != s._labels.get(d[code]):
                     out.append((f'{sid}-is-lookup-of-{code}', f'{code}={d[code]} {sid}={d[sid]!r}'))
 
+    # label sensors paired with their code sensor structurally (same registers, matching types) - whatever the ids are
+    listed = list(world.listed(inv))
+    for lab in listed:
+        k = tname(lab)
+        want_t = {'Enum': ('Byte',), 'EnumH': ('ByteH',), 'EnumL': ('ByteL',), 'Enum2': ('Integer',), 'EnumBitmap4': ('Long',)}.get(k)
+        if not want_t or lab.id_ not in reported:
+            continue
+        codes = [s for s in listed if tname(s) in want_t and s.offset == lab.offset]
+        if not codes or codes[0].id_ not in reported or not isinstance(reported[codes[0].id_], int):
+            continue
+        cv = reported[codes[0].id_]
+        if k == 'EnumBitmap4':
+            bits = cv & 0xFFFFFFFF
+            want = refdec.bitmap_text(0 if bits == 0xFFFFFFFF else bits, lab._labels)
+        else:
+            want = lab._labels.get(cv)
+        if reported[lab.id_] != want:
+            out.append((f'{lab.id_}-is-lookup-of-{codes[0].id_}', f'{codes[0].id_}={cv} {lab.id_}={reported[lab.id_]!r} (expected {want!r})'))
+
     def has(*ks):
         return all(k in d and d[k] is not None for k in ks)
     if fam == 'ET':
